@@ -50,7 +50,7 @@ PROPERTIES = {
                 explanation='panic freedom of every extracted engine function (overflow, indexing, unwrap, callee preconditions such as rand_below(n > 0)) proved by Verus, '
                             'the wrapper tails and invalidation callbacks the macros emit for the fixture corpus (unwrap, indexing, callee preconditions), plus RefCell guard-liveness obligations on the original thread_local_cache.rs (no borrow_mut while a borrow of the same cell is live); unit interference: the global lookup/store paths and the async lookup/insert path stay panic-free and terminate even when every lock acquisition / DashMap operation sees arbitrarily changed data (concurrent interference)',
                 assumptions=['limit >= 1 where the async engine requires it; counters unsaturated; totals fit usize', 'user closures / estimators / Debug impls do not panic']),
-    'C20': dict(units=['async_cache', 'wrappers_async', 'wrappers_async_await'], extra=[_lock(['await'], 'C20'), _preawait('C20')],
+    'C20': dict(units=['async_cache', 'wrappers_async', 'wrappers_async_await'], extra=[_lock(['await'], 'C20'), _preawait('C20'), _reg('C20')],
                 explanation='on the real #[cache_async] expansions: no lock / DashMap guard is live at the .await (guard-liveness obligations), the only cache operation before the awaited body is the lookup, and the lookup never adds an entry and leaves the representation invariant intact (engine contract of get); after the await the store is the ordinary insert (last store wins, exact eviction); engine methods return owned values; unit wrappers_async_await: the same expansions with ARBITRARY interference (any store / queue / statistics contents satisfying the representation invariant, same configuration) injected at the .await: the resumed call still stores exactly its own result under its own key, runs the body at most once, and a hit is served before any suspension',
                 assumptions=['Rust async semantics: dropping a future runs only the destructors of live locals', 'schedules enter only through the invariant argument: every other operation meets its precondition (wf) while the call is suspended']),
     'C17': dict(units=[], extra=[_lock(['rank'], 'C17')],
@@ -59,12 +59,12 @@ PROPERTIES = {
                 trusted=['extract/locks.py: guard lifetimes follow Rust drop semantics (let-bound guards to end of block, temporaries to end of statement / scrutinee construct)']),
     'C06': dict(units=ENGINES, extra=[_reg('C06')], explanation='on every fixture expansion the ttl attribute arrives at the constructor as written (structural); is_expired == (age >= ttl) and the get postconditions never_serves_expired / purges_expired / serves_unexpired, for all ttl and ages'),
     'C04': dict(units=ENGINES + ['wrappers_global', 'wrappers_async'], extra=[_reg('C04')], explanation='on every fixture expansion the limit attribute arrives at the constructor as written (structural); wf / bound / exact-victim postconditions of insert and of the entry-limit eviction, all N, all six policies; the invalidation callbacks and wrappers emitted by the macros preserve the representation invariant the capacity bookkeeping rests on (queue and store hold exactly the same keys, once each)'),
-    'C01': dict(units=ENGINES + WRAPPERS, explanation='get returns a clone of the value stored under exactly this key; insert: last store wins, survivors unchanged'),
+    'C01': dict(units=ENGINES + WRAPPERS, extra=[_reg('C01')], explanation='the key is computed once, before the lookup, and the statics are local to the decorated function (structural); get returns a clone of the value stored under exactly this key; insert: last store wins, survivors unchanged'),
     'C07': dict(units=ENGINES + ['policy', 'wrappers_global', 'wrappers_async'], extra=[_reg('C07'), _kani('C07', 'policy')], explanation='on every fixture expansion the policy attribute arrives at the constructor as written (sync: the variant; async: the string, and EvictionPolicy::from maps every policy name to its own variant: unit policy); queue postconditions: hit_recency, store moves key to back, FIFO/LRU victim is the queue front; the conditional-invalidation callbacks emitted by the macros keep the relative queue order of the survivors (queue_order_preserved)'),
     'C08': dict(units=ENGINES_SCORES + ['policy', 'wrappers_global', 'wrappers_async'], extra=[_kani('C08'), _kani('C08', 'policy'), _reg('C08')], explanation='policy and frequency_weight attributes arrive at the constructor as written (structural; EvictionPolicy::from verified in unit policy); hit_counts postcondition and argmin postconditions of the scoring helpers'),
     'C05': dict(units=ENGINES + ['memory_estimator', 'wrappers_global', 'wrappers_async'], extra=[_reg('C05'), _kani('C05', 'estimator')], explanation='on every fixture expansion the max_memory attribute arrives at the constructor in bytes, KB/MB/GB as powers of 1024 (structural); the invalidation callbacks emitted by the macros preserve the representation invariant the memory accounting rests on; insert_with_memory: total <= max_memory after every store, oversize value not cached and displaces nothing, no eviction while the total fits, FIFO/LRU victims are the oldest; memory totals are a proved fold along the queue (no total axioms); unit memory_estimator: the built-in estimators (String, Vec, Option, Result, 2-/3-tuples, Box) return inline size + owned heap capacity, recursively, without underflow',
                 assumptions=['hit counters never saturate (u64::MAX hits on one entry)', 'sum of the estimates fits usize (machine arithmetic)']),
-    'C02': dict(units=WRAPPERS + ['keys'], explanation='wrapper contracts: on every fixture expansion the cache is read and written under exactly key_str(d(p1) + "|" + d(p2) ...) with every parameter (and the receiver) present in order, d = Debug rendering (keys.rs blanket impl verified); lemmas: such keys are injective on argument tuples when each rendering is injective and "|"-safe',
+    'C02': dict(units=WRAPPERS + ['keys'], extra=[_reg('C02')], explanation='the key is computed exactly once per call, before the lookup (structural); wrapper contracts: on every fixture expansion the cache is read and written under exactly key_str(d(p1) + "|" + d(p2) ...) with every parameter (and the receiver) present in order, d = Debug rendering (keys.rs blanket impl verified); lemmas: such keys are injective on argument tuples when each rendering is injective and "|"-safe',
                 assumptions=['std Debug of the built-in key types is injective and self-delimiting w.r.t. "|" (axioms ax_builtin_debug / ax_builtin_types); user CacheableKey impls and distinct NaN payloads are not covered'],
                 trusted=['R9 rewrites: expanded format!("{:?}", x) -> debug_fmt(&x); Vec<String>::join(sep) -> vec_join']),
     'C03': dict(units=ENGINES + WRAPPERS + ['monotone', 'wrappers_async_await', 'wrappers_global_await'], explanation='engine contracts (a lookup never removes an unexpired entry; an unbounded store keeps everything) and wrapper contracts on the real macro expansions: a hit is served without running the body, a miss runs it exactly once and stores the result (effect log). Concurrent sentence (global and async engines, configuration without limit / ttl / max_memory): unit monotone proves on the real get / insert code, under the interference projection, that every store critical section leaves every resident key resident (rely/guarantee: ghost key set threaded through the acquisitions), that a lookup returning None did not see the key at its read section, and that the key is resident when insert returns; units wrappers_async_await / wrappers_global_await: with arbitrary interference while the body runs (no lock held) the body runs at most once per call, a hit is served without it, and the call then stores its own result under its own key',
